@@ -74,20 +74,31 @@ func (f *fakeClk) MeasureClockOffset(ctx context.Context) (time.Time, time.Durat
 	return time.Time{}, 0, errFake
 }
 
-// runBubble is synctest.Run with an explicit happens-before edge from the end of the bubble's
-// root function to the caller (the race detector does not see one through synctest.Run).
-func runBubble(f func()) {
+// runBubble is synctest.Run with (a) an explicit happens-before edge from the end of the
+// bubble's root function to the caller (the race detector does not see one through
+// synctest.Run) and (b) the runtime's "deadlock: all goroutines in bubble are blocked" panic —
+// raised in the caller of Run when goroutines are still blocked at bubble exit — recovered and
+// returned as deadlocked=true. Any other panic is passed on.
+func runBubble(f func()) (deadlocked bool) {
 	ch := make(chan struct{}, 1)
 	defer func() {
 		select {
 		case <-ch:
 		default:
 		}
+		if r := recover(); r != nil {
+			if strings.Contains(fmt.Sprint(r), "deadlock") {
+				deadlocked = true
+				return
+			}
+			panic(r)
+		}
 	}()
 	synctest.Run(func() {
 		f()
 		ch <- struct{}{}
 	})
+	return false
 }
 
 type outcome struct {
@@ -145,19 +156,9 @@ func runScenario(t0, deadline int64, specs []spec) (o outcome) {
 		cancel()
 		synctest.Wait()
 	}
-	func() {
-		defer func() {
-			if r := recover(); r != nil {
-				s := fmt.Sprint(r)
-				if strings.Contains(s, "deadlock") {
-					o.leak = "deadlock"
-				} else {
-					panic(r)
-				}
-			}
-		}()
-		runBubble(body)
-	}()
+	if runBubble(body) {
+		o.leak = "deadlock"
+	}
 	o.last = t0
 	mu.Lock()
 	defer mu.Unlock()
@@ -259,7 +260,7 @@ func (instantClk) MeasureClockOffset(ctx context.Context) (time.Time, time.Durat
 // returned by then).
 func runEntry(a, b int, busy bool) string {
 	var first, next string
-	runBubble(func() {
+	dead := runBubble(func() {
 		var c client.ReferenceClockClient
 		var release context.CancelFunc
 		var done chan struct{}
@@ -302,6 +303,9 @@ func runEntry(a, b int, busy bool) string {
 		}
 		synctest.Wait()
 	})
+	if dead {
+		return "ok " + first + " next=" + next + " leak=deadlock"
+	}
 	return "ok " + first + " next=" + next
 }
 
@@ -310,7 +314,7 @@ func runEntry(a, b int, busy bool) string {
 func runGuard(evs []string) string {
 	var res []string
 	bad := false
-	runBubble(func() {
+	dead := runBubble(func() {
 		var c client.ReferenceClockClient
 		var inside context.CancelFunc
 		var insideDone chan struct{}
@@ -366,6 +370,9 @@ func runGuard(evs []string) string {
 	})
 	if bad {
 		return "bad-op"
+	}
+	if dead {
+		return "ok " + strings.Join(res, " ") + " leak=deadlock"
 	}
 	return "ok " + strings.Join(res, " ")
 }
@@ -569,7 +576,7 @@ func gen(c *lib.Ctx) {
 	for k := 0; k < c.Scale(5, 50); k++ {
 		n := int(r.Range(1, 7))
 		var off1, off2 time.Duration
-		runBubble(func() {
+		dead := runBubble(func() {
 			ms := make([]measurements.Measurement, n)
 			round := func(ok bool) time.Duration {
 				start := time.Now()
@@ -589,7 +596,16 @@ func gen(c *lib.Ctx) {
 			off2 = round(false)
 			synctest.Wait()
 		})
-		if off1 != 0 && off2 == off1 {
+		if dead {
+			// the equivalent single round as a replayable op: n clocks that all fail in time
+			specs := make([]spec, n)
+			for i := range specs {
+				specs[i] = spec{due: int64(i + 1)}
+			}
+			op := fmtOp(0, int64(time.Second), specs, nil)
+			c.Fail("c16:leak", "goroutines still blocked at bubble exit (two rounds on one slice, second round all clocks fail)", []string{op}, nil)
+			c.Count("reuse:deadlock")
+		} else if off1 != 0 && off2 == off1 {
 			c.Count("reuse:all-clocks-failed-yet-previous-midpoint-reported")
 		} else {
 			c.Count("reuse:other")
@@ -619,7 +635,9 @@ func gen(c *lib.Ctx) {
 		if busy {
 			wantNext = "refused"
 		}
-		if ans != "ok "+want+" next="+wantNext {
+		if strings.HasSuffix(ans, " leak=deadlock") {
+			c.Fail("c16:leak", "goroutines still blocked at bubble exit", []string{op}, map[string]any{"answer": ans})
+		} else if ans != "ok "+want+" next="+wantNext {
 			c.Fail("c16:entry", "entry of MeasureClockOffsets: expected "+want+" then "+wantNext+", got "+ans, []string{op}, nil)
 		}
 	}
@@ -640,6 +658,10 @@ func gen(c *lib.Ctx) {
 		op := "col.guard " + strings.Join(evs, " ")
 		ans := c.Do(op)
 		// direct oracle: an enter while a collection is in progress must be refused
+		if strings.HasSuffix(ans, " leak=deadlock") {
+			c.Fail("c16:leak", "goroutines still blocked at bubble exit", []string{op}, map[string]any{"answer": ans})
+			ans = strings.TrimSuffix(ans, " leak=deadlock")
+		}
 		f := strings.Fields(ans)
 		in := false
 		okAns := len(f) == len(evs)+1 && f[0] == "ok"
